@@ -51,7 +51,7 @@ ASSUMPTIONS = ['instants and configured durations are multiples of 2^-10 s below
 
 TPS = 1 << 20
 GRID = 1 << 10
-ACTIONS = ['open', 'data', 'recv', 'park', 'cancel', 'finish', 'reset', 'lose']
+ACTIONS = ['open', 'data', 'big', 'credit', 'recv', 'park', 'cancel', 'finish', 'reset', 'lose']
 
 logging.getLogger('grpclib').setLevel(logging.CRITICAL)
 logging.getLogger('asyncio').setLevel(logging.CRITICAL)
@@ -116,6 +116,7 @@ class Run:
                                  # ('X', t) closed by grpclib; ('L', t) scripted loss
         self.calls = []          # per call: dict(state, q, task, rec, sid)
         self.unhandled = []
+        self.stalled = 0
         self.ties = []           # for every instant with both timers due: did close run first?
         self.end = None
         self.notes = []
@@ -175,13 +176,23 @@ class Run:
             self.chron.append(('X', self.close_at))
             self.step_items.append('X@%d' % self.close_at)
             for c in self.calls:
-                if c['rec']['state'] in ('idle', 'park'):
+                if c['rec']['state'] in ('idle', 'park') or c['rec']['state'].startswith('big:'):
                     c['inflight_at_close'] = True
 
     def deliver_other(self):
         while self.other_out and not self.tr.lost and not self.tr.closing:
             self.tr.feed(self.other_out.pop(0))
         del self.other_out[:]
+
+    def settle(self):
+        """deliver what the peer has to say (SETTINGS acks, WINDOW_UPDATEs -- never its PING acks) and
+        let the tasks react, until nothing more happens at this instant"""
+        for _ in range(200):
+            self.loop.run_quiet(0.0)
+            if not self.other_out or self.tr.lost or self.tr.closing:
+                break
+            self.deliver_other()
+        self.loop.run_quiet(0.0)
 
     # ---- model events
     def begin(self):
@@ -264,6 +275,8 @@ class Run:
                         rec['state'] = cmd
                         if cmd == 'data':
                             await s.send_message(b'x')
+                        elif cmd.startswith('big:'):
+                            await s.send_message(b'z' * int(cmd[4:]))
                         elif cmd == 'park':
                             await s.recv_message()
                         elif cmd == 'recv1':
@@ -301,6 +314,8 @@ class Run:
                     rec['state'] = cmd
                     if cmd == 'data':
                         await stream.send_message(b'x')
+                    elif cmd.startswith('big:'):
+                        await stream.send_message(b'z' * int(cmd[4:]))
                     elif cmd == 'park':
                         await stream.recv_message()
                     elif cmd == 'recv1':
@@ -317,11 +332,19 @@ class Run:
         return handler
 
     def do_action(self, action, idx):
-        """perform one traffic action now; emits the model events it causes"""
+        """perform one traffic action now; emits the model events it causes.  HeadersSent / DataSent are
+        taken from the WIRE: one event per HEADERS / non-empty DATA frame this side sent during the step
+        (a payload larger than the peer's frame size or window is several frames, and the frames that
+        went out before a stall count); Acked from the script (a message was read by the application);
+        StreamOpened/Closed from h2's stream table."""
         role = self.case['role']
         live = [c for c in self.calls if c['rec']['state'] == 'idle']
-        evs = []
+        alive = [c for c in self.calls
+                 if (c['rec']['state'] in ('idle', 'park') or c['rec']['state'].startswith('big:'))
+                 and c['sid']]
+        extra = []
         self.begin()
+        c0 = len(self.chron)
         if action == 'lose':
             self.lost_at = self.now()
             self.chron.append(('L', self.lost_at))
@@ -330,7 +353,7 @@ class Run:
             self.emit(['L'])
             return
         if action == 'open':
-            if len([c for c in self.calls if c['rec']['state'] in ('idle', 'park', 'new')]) >= 4:
+            if len(alive) + len([c for c in self.calls if c['rec']['state'] == 'new']) >= 4:
                 return
             if role == 'client':
                 from h2.events import RequestReceived
@@ -340,40 +363,37 @@ class Run:
                 sids = [e.stream_id for e in self.peer.events if isinstance(e, RequestReceived)]
                 call['sid'] = sids[-1] if sids else None
                 self.calls.append(call)
-                evs += self.sync_opens()
-                if call['rec']['state'] == 'idle':
-                    evs.append('H')
             else:
                 n0 = len(self.started)
                 self.peer.request(P.REQ_HEADERS)
                 self.loop.run_quiet(0.0)
-                evs += self.sync_opens()
                 self.calls += self.started[n0:]
+        elif action == 'credit':
+            # the peer returns flow-control credit: stalled senders resume
+            self.peer.window_update(0, 1 << 20)
+            for c in alive:
+                try:
+                    self.peer.window_update(c['sid'], 1 << 20)
+                except Exception:
+                    pass
         elif action == 'reset':
-            cand = [c for c in self.calls if c['rec']['state'] in ('idle', 'park') and c['sid']]
-            if not cand:
+            if not alive:
                 return
-            call = cand[idx % len(cand)]
+            call = alive[idx % len(alive)]
             self.peer.reset(call['sid'])
             self.loop.run_quiet(0.0)
             if call['rec']['state'] == 'idle':
                 call['q'].put_nowait('quit')
-                self.loop.run_quiet(0.0)
-            evs += self.sync_opens()
         elif not live:
             return
         else:
             call = live[idx % len(live)]
             if action == 'data':
-                first = not call['sent_initial']
                 call['q'].put_nowait('data')
-                self.loop.run_quiet(0.0)
-                if 'data' in call['rec']['ops'][-1:]:
-                    call['sent_initial'] = True
-                    if first:
-                        evs.append('H')
-                    evs.append('D')
-                evs += self.sync_opens()
+            elif action == 'big':
+                # a payload of several DATA frames; with a peer that returns no credit it stalls
+                # half-way (65535 bytes of connection window), the frames before the stall are out
+                call['q'].put_nowait('big:%d' % [20000, 40000, 70000, 200000][idx % 4])
             elif action == 'recv':
                 # the PEER sends a message and the application reads it: Connection.ack returns the
                 # flow-control credit (model event R) -- inbound traffic, nothing "sent" by this side
@@ -385,19 +405,14 @@ class Run:
                 call['q'].put_nowait('recv1')
                 self.loop.run_quiet(0.0)
                 if 'recv1' in call['rec']['ops'][-1:] and call['rec'].get('got') == b'y' * size:
-                    evs.append('R')
-                evs += self.sync_opens()
+                    extra.append('R')
             elif action == 'park':
                 call['q'].put_nowait('park')
-                self.loop.run_quiet(0.0)
-                evs += self.sync_opens()
             elif action == 'cancel':
                 if role == 'client':
                     call['q'].put_nowait('cancel')
                 else:
                     self.peer.reset(call['sid'], code=8)
-                self.loop.run_quiet(0.0)
-                evs += self.sync_opens()
             elif action == 'finish':
                 if role == 'client':
                     call['q'].put_nowait('end')
@@ -407,16 +422,11 @@ class Run:
                         call['got_headers'] = True
                     self.peer.headers(call['sid'], [('grpc-status', '0')], end_stream=True)
                     call['q'].put_nowait('quit')
-                    self.loop.run_quiet(0.0)
-                    evs += self.sync_opens()
                 else:
                     call['q'].put_nowait('finish')
-                    self.loop.run_quiet(0.0)
-                    # trailers (or a trailers-only response): one HEADERS frame with END_STREAM
-                    evs.append('H')
-                    evs += self.sync_opens()
-        self.deliver_other()
-        self.emit(evs)
+        self.settle()
+        frames = [e[0] for e in self.chron[c0:] if e[0] in ('H', 'D')]
+        self.emit(frames + extra + self.sync_opens())
 
     # ---- the scenario
     def execute(self):
@@ -441,6 +451,8 @@ class Run:
             self.peer.take_events()
             self.tr.on_write = self.on_write
             self.tr.on_close = self.on_close
+            # a peer that returns no flow-control credit on its own (only by 'credit' actions)
+            self.peer.auto_ack = bool(case['peer'].get('credit', True))
             self.ping_handle_before = self.conn()._ping_handle
             self.init_obs = self.snapshot()
             # unrelated timers of the application sharing the loop (they do nothing; they change the
@@ -527,7 +539,7 @@ class Run:
                 self.begin()
                 self.chron.append(('F', tt, self.open_count()))
                 self.loop.run_until(secs(tt))
-                self.deliver_other()
+                self.settle()
                 self.emit('T:%d:1:%d' % (tt, 1 if cf else 0), skip_at=tt)
                 continue
             # a harness event at te (>= now); no timer is due before it
@@ -558,6 +570,7 @@ class Run:
             if c['rec']['state'] == 'idle':
                 c['q'].put_nowait('park')
         self.loop.run_quiet(0.0)
+        self.stalled = sum(1 for c in self.calls if c['rec']['state'].startswith('big:'))
         for c in self.calls:
             r = c['rec']
             self.outcomes.append({'state': r['state'], 'exc': exc_name(r['exc']) if r['exc'] else None,
@@ -848,7 +861,9 @@ def gen_case(rng, kind=None):
         pool = live + [timeout, timeout + GRID, None, time_ + GRID]
         delays = [rng.choice(pool) for _ in range(rng.randint(2, 5))]
     traffic = []
-    pattern = rng.choice(['idle', 'idle', 'one_call', 'streaming', 'download', 'download', 'duplex', 'churn', 'churn'])
+    credit = True
+    pattern = rng.choice(['idle', 'idle', 'one_call', 'streaming', 'download', 'download', 'duplex', 'bigsend',
+                          'bigsend', 'churn', 'churn'])
     span = horizon - t0
     if pattern == 'one_call':
         traffic.append([t0 + rng.randint(0, 3) * GRID, 'open', 0])
@@ -873,11 +888,23 @@ def gen_case(rng, kind=None):
             send = pattern == 'duplex' and k % rng.choice([7, 11, 16]) == 0
             traffic.append([t, 'data' if send else 'recv', rng.randint(0, 4)])
             t += step
+    elif pattern == 'bigsend':
+        # a quiet open call (the ping budget gets used up), then payloads of several DATA frames; the
+        # peer may return no credit, so that a payload stalls with part of its frames on the wire
+        credit = rng.random() < 0.4
+        traffic.append([t0 + GRID, 'open', 0])
+        t = t0 + GRID + rng.randint(1, max(1, periods - 1)) * time_ + frac(time_, rng.choice([1, 3]), 4)
+        for _ in range(rng.randint(1, 4)):
+            if t >= horizon:
+                break
+            traffic.append([t, rng.choice(['big', 'big', 'big', 'credit', 'data']), rng.randint(0, 3)])
+            t += max(GRID, frac(time_, rng.choice([1, 2, 5]), 4))
     elif pattern == 'churn':
+        credit = rng.random() < 0.7
         for _ in range(rng.randint(2, 14)):
             traffic.append([t0 + rng.randint(0, max(1, span // GRID)) * GRID,
-                            rng.choice(['open', 'open', 'data', 'data', 'recv', 'recv', 'recv', 'park', 'cancel',
-                                        'finish', 'reset']), rng.randint(0, 4)])
+                            rng.choice(['open', 'open', 'data', 'data', 'big', 'big', 'credit', 'recv', 'recv',
+                                        'recv', 'park', 'cancel', 'finish', 'reset']), rng.randint(0, 4)])
         # make coincidences with the timer grid frequent
         for _ in range(rng.randint(0, 3)):
             traffic.append([t0 + rng.randint(1, periods) * time_, rng.choice(['open', 'data', 'recv', 'reset']), 0])
@@ -893,7 +920,7 @@ def gen_case(rng, kind=None):
     return {'op': 'run', 'role': role, 't0': t0, 'cfg': cfg, 'kind': kind, 'pattern': pattern,
             'noise': sorted(noise),
             'peer': {'delays': delays, 'stop_at': stop_at, 'before_timer': before,
-                     'fifo': rng.random() < 0.9},
+                     'fifo': rng.random() < 0.9, 'credit': credit},
             'traffic': traffic, 'horizon': horizon}
 
 
@@ -937,6 +964,8 @@ def check_runs_chunk(ctx, res, cases):
         res.count('pings:%d' % min(len(r.pings), 6))
         res.count('closed_by_keepalive:%s' % (r.close_at is not None))
         res.count('steps:%d0+' % (len(r.events) // 10))
+        if getattr(r, 'stalled', 0):
+            res.count('send_stalled_under_flow_control')
         for cf in r.ties:
             res.count('tie:' + ('close_first' if cf else 'ping_first'))
         for e in r.events:
@@ -1041,7 +1070,8 @@ def run(ctx):
                 'time or 2^-10 s; permit flag; max_pings 0..5; min interval from 2^-10 s to 3*time and the default '
                 '300 s; int and float spellings; 4% keepalive off) x peer (acks after delay < timeout, = timeout '
                 'before/after the timer, late, stops at T, never, acks older pings, mixed) x traffic (idle, one '
-                'call, streaming data between pings, receive-heavy downloads and duplex calls where the peer sends DATA '
+                'call, streaming data between pings, multi-frame payloads that stall under flow control with part of their '
+                'DATA frames sent (peer returning no credit), receive-heavy downloads and duplex calls where the peer sends DATA '
                 'that the application reads, calls opening/closing/reset, traffic on timer instants, '
                 'connection loss) x start instant; finite horizon of 3..12 periods; every step compared with the '
                 'model (items P/S/X with instants + counter, open streams, both timers, last ping, closed); '
